@@ -61,8 +61,16 @@ def new_op(rng, kind, idn=0, small=False, **over):
             op["chunk"] = max(1, op["chunk"] // 2)
     else:
         a, b = rng.choice(RATES), rng.choice(RATES)
-        if rng.random() < 0.4:
+        u = rng.random()
+        if u < 0.35:
             a, b = rng.randrange(1, 13), rng.randrange(1, 13)
+        elif u < 0.6:
+            # block lengths with large prime factors / awkward factorisations (the FFT planner picks other
+            # algorithms with other scratch needs for them)
+            odd = [83, 84, 97, 101, 127, 167, 214, 251, 257, 499, 997, 1000, 1009, 44056, 44110, 47999]
+            a, b = rng.choice(odd), rng.choice(odd + RATES)
+            if rng.random() < 0.5:
+                a, b = b, a
         op["fs_in"], op["fs_out"] = a, b
         op["chunk"] = rng.choice([1, 2, 7, 16, 64, 100, 256, 480, 1024, 2048] if not small else [1, 2, 3, 5, 8, 12])
         op["sub"] = rng.choice([1, 1, 2, 3, 4])
@@ -91,13 +99,18 @@ def frac_of(j):
 
 
 def valid_history(rng, kind, ncalls=30, small=False, allow=("ratio", "ramp", "chunk", "reset", "via", "partial"),
-                  **over):
-    """A history of documented operations with well-formed arguments."""
+                  varymask=False, **over):
+    """A history of documented operations with well-formed arguments.
+
+    varymask: the active-channel mask changes from call to call (only meaningful for signals that are
+    not used as an instant probe: a channel that was inactive has a hole in its history)."""
     n = new_op(rng, kind, small=small, **over)
     ops = [n]
     mask = None
     if n["ch"] > 1 and rng.random() < 0.3:
         mask = [rng.random() < 0.7 for _ in range(n["ch"])]
+    if varymask and n["ch"] > 1 and n.get("signal") != "index":
+        mask = "vary"
     maxrel = frac_of(n["maxrel"]) if kind in ASYNC else Fraction(1)
     orig = frac_of(n["r"]) if kind in ASYNC else Fraction(1)
     rels = in_range_rels(maxrel)
@@ -125,7 +138,13 @@ def valid_history(rng, kind, ncalls=30, small=False, allow=("ratio", "ramp", "ch
                     p["in_extra"] = rng.randrange(1, 5)
                 if rng.random() < 0.2:
                     p["out_extra"] = rng.randrange(1, 5)
-            if mask is not None:
+            if mask == "vary":
+                p["mask"] = [rng.random() < 0.6 for _ in range(n["ch"])]
+                if not any(p["mask"]) and p.get("via") in ("alloc", "vec_alloc"):
+                    p["via"] = "into"
+                if rng.random() < 0.5 and p.get("via", "into") in ("into", "slices", "vec_into"):
+                    p["empty_masked"] = True
+            elif mask is not None:
                 p["mask"] = mask
                 if not any(mask) and p.get("via") in ("alloc", "vec_alloc"):
                     p["via"] = "into"   # the written count is not observable through process() then
@@ -136,7 +155,11 @@ def valid_history(rng, kind, ncalls=30, small=False, allow=("ratio", "ramp", "ch
         for _ in range(rng.randrange(1, 4)):
             p = {"op": "partial", "id": 0, "k": rng.choice([-1, -1, 1, 2, 3])}
             p["via"] = rng.choice(["into", "alloc", "vec_into", "vec_alloc"])
-            if mask is not None:
+            if mask == "vary":
+                p["mask"] = [rng.random() < 0.6 for _ in range(n["ch"])]
+                if not any(p["mask"]):
+                    p["via"] = "into"
+            elif mask is not None:
                 p["mask"] = mask
                 if not any(mask):
                     p["via"] = "into"
@@ -172,13 +195,21 @@ def bad_history(rng, kind, ncalls=20, small=False, **over):
 
 def rt_history(rng, kind, ncalls=30, small=False):
     """Every operation that must be real-time safe, at every kind of history point (C09)."""
-    ops = valid_history(rng, kind, ncalls, small, allow=("ratio", "ramp", "chunk", "reset"))
+    over = {}
+    if rng.random() < 0.5:
+        over = {"signal": "noise", "ch": rng.choice([2, 3, 4])}
+        if kind.startswith("Sinc"):
+            over["probe"] = "dispatch"
+    ops = valid_history(rng, kind, ncalls, small, allow=("ratio", "ramp", "chunk", "reset"),
+                        varymask=bool(over), **over)
     out = [ops[0]]
     ch = ops[0]["ch"]
     for op in ops[1:]:
         if op["op"] == "process":
             op = dict(op)
             op["via"] = rng.choice(["into", "slices", "vec_into"])
+            if "mask" in op and rng.random() < 0.2:
+                op.pop("mask")           # None = all channels active again
         out.append(op)
         u = rng.random()
         if u < 0.15:
